@@ -109,21 +109,50 @@ fn get_close(path: &str) -> Vec<u8> {
     build_request("GET", path, &[CLOSE], b"")
 }
 
-/// Feed the received bytes to `RespReader` through a loopback socket pair.
-fn reader_verdict(recv: &[u8]) -> String {
+thread_local! {
+    static REPLAY: std::cell::RefCell<Option<TcpListener>> = std::cell::RefCell::new(None);
+}
+
+fn replay_listener_addr() -> SocketAddr {
+    REPLAY.with(|l| {
+        let mut l = l.borrow_mut();
+        if l.is_none() {
+            for _ in 0..100 {
+                if let Ok(x) = TcpListener::bind("127.0.0.1:0") {
+                    *l = Some(x);
+                    break;
+                }
+                std::thread::sleep(Duration::from_millis(100));
+            }
+        }
+        l.as_ref().expect("loopback listener").local_addr().unwrap()
+    })
+}
+
+/// Feed the received bytes to `RespReader` through a loopback connection (one
+/// listener per thread; the connection is reset afterwards so that no socket
+/// lingers in TIME_WAIT).
+fn reader_verdict(rt: &tokio::runtime::Runtime, recv: &[u8]) -> String {
     if recv.is_empty() {
         return "0:1:-".into();
     }
-    let l = TcpListener::bind("127.0.0.1:0").unwrap();
-    let a = l.local_addr().unwrap();
+    let a = replay_listener_addr();
+    let Some(s) = open(a) else { return "0:0:unconnected".into() };
+    let acc = REPLAY.with(|l| l.borrow().as_ref().unwrap().accept());
+    let Ok((mut w, _)) = acc else { return "0:0:unaccepted".into() };
     let data = recv.to_vec();
-    let t = std::thread::spawn(move || {
-        if let Ok((mut s, _)) = l.accept() {
-            let _ = s.write_all(&data);
-        }
-    });
-    let s = TcpStream::connect(a).unwrap();
+    // responses are small; a writer thread only for the rare large one
+    let t = if data.len() > 32768 {
+        Some(std::thread::spawn(move || {
+            let _ = w.write_all(&data);
+        }))
+    } else {
+        let _ = w.write_all(&data);
+        drop(w);
+        None
+    };
     let _ = s.set_read_timeout(Some(Duration::from_secs(10)));
+    let keep = s.try_clone();
     let mut rr = RespReader::new(s);
     let mut sts = Vec::new();
     let mut all = true;
@@ -134,7 +163,13 @@ fn reader_verdict(recv: &[u8]) -> String {
         }
         sts.push(r.status.to_string());
     }
-    let _ = t.join();
+    if let Some(t) = t {
+        let _ = t.join();
+    }
+    drop(rr);
+    if let Ok(k) = keep {
+        close_rst(rt, k);
+    }
     format!("{}:{}:{}", sts.len(), all as u8, if sts.is_empty() { "-".to_string() } else { sts.join(",") })
 }
 
@@ -166,13 +201,15 @@ fn run_conn(rt: &tokio::runtime::Runtime, addr: SocketAddr, case: &Case) -> Opti
                     Err(_) => break,
                 }
             }
+            // everything there was to read has been read
+            close_rst(rt, s);
             Some(recv)
         }
     }
 }
 
-fn fc_line(id: &str, mode: HandlerTaskMode, case: &Case, recv: &[u8]) -> String {
-    format!("fc {} {} {} {} => {} rr={}", id, mode_name(mode), case.kind, case.sent.enc(), hex(recv), reader_verdict(recv))
+fn fc_line(rt: &tokio::runtime::Runtime, id: &str, mode: HandlerTaskMode, case: &Case, recv: &[u8]) -> String {
+    format!("fc {} {} {} {} => {} rr={}", id, mode_name(mode), case.kind, case.sent.enc(), hex(recv), reader_verdict(rt, recv))
 }
 
 fn random_case(rng: &mut Rng) -> Case {
@@ -375,7 +412,7 @@ fn run_sequence(
                         ctx.log(Ev::Fault(c, f));
                     }
                     match run_conn(&rt, addr, case) {
-                        Some(recv) => lines.lock().unwrap().push((i, fc_line(&format!("{}.{}", id, c), mode, case, &recv))),
+                        Some(recv) => lines.lock().unwrap().push((i, fc_line(&rt, &format!("{}.{}", id, c), mode, case, &recv))),
                         None => {
                             bad.fetch_add(1, Ordering::SeqCst);
                         }
@@ -394,6 +431,7 @@ fn run_sequence(
                         }
                         _ => {}
                     }
+                    close_rst(&rt, s);
                 }
                 Item::Panic => {
                     let r = c;
@@ -412,8 +450,9 @@ fn run_sequence(
                             Ok(n) => recv.extend_from_slice(&buf[..n]),
                         }
                     }
+                    close_rst(&rt, s);
                     let case = Case { kind: "panic".into(), fault: Some("panic"), sent: Sent::raw(&get(&format!("/p/{}", r))), end: End::ReadToEof };
-                    lines.lock().unwrap().push((i, fc_line(&format!("{}.{}", id, c), mode, &case, &recv)));
+                    lines.lock().unwrap().push((i, fc_line(&rt, &format!("{}.{}", id, c), mode, &case, &recv)));
                 }
             }
         }));
@@ -451,7 +490,7 @@ enum Item {
 }
 
 fn main() {
-    quiet_panics();
+    quiet_handler_panics();
     let rt = Arc::new(
         tokio::runtime::Builder::new_multi_thread().worker_threads(8).enable_all().build().unwrap(),
     );
